@@ -180,7 +180,7 @@ def _is_marker_line(case, lines, i):
 # (b) generated programs
 
 _STYLES = ['direct', 'direct', 'lambda', 'listcomp', 'method', 'multistmt', 'multiline', 'recursive', 'eval', 'exec', 'genexpr', 'nested_def',
-           'reraise', 'finally', 'with', 'registered', 'registered']
+           'reraise', 'finally', 'with', 'registered', 'registered', 'mutual']
 _EXC = ['ValueError', 'KeyError', 'TypeError', 'ZeroDivisionError', 'Custom', 'CustomStr', 'Local', 'CustomMain', 'CustomPkg', 'IndexError', 'RuntimeError']
 _MSG = ['empty', 'one', 'multi', 'nonstr', 'two_args', 'colon', 'unicode', 'none_arg']
 
@@ -249,6 +249,11 @@ def gen_program(case):
             L += ['    try:', '        return %s(x)' % nxt, '    finally:', '        marker = 2', '        marker += 1']
         elif style == 'with':
             L += ['    with open(__file__) as fh:', '        return %s(x)' % nxt]
+        elif style == 'mutual':
+            # two functions calling each other r times: deep chains whose consecutive frames are never identical
+            L[-1] = 'def f%d(x, n=%d):' % (i, r)
+            L += ['    if n:', '        return f%d_pong(x, n)' % i, '    return %s(x)' % nxt, '',
+                  'def f%d_pong(x, n):' % i, '    return f%d(x, n - 1)' % i]
         elif style == 'registered':
             # code compiled under a pseudo file name whose source IS known to linecache (what doctest, IPython and code
             # generators do): the interpreter shows these source lines
@@ -293,7 +298,7 @@ def run_b(case):
     path = os.path.join(_tmpdir(), name + '.py')
     with open(path, 'w', encoding='utf-8') as f:
         f.write(src)
-    deep = sum(r for s_, r in case['chain'] if s_ == 'recursive' and r > 100)
+    deep = sum(r * (2 if s_ == 'mutual' else 1) for s_, r in case['chain'] if s_ in ('recursive', 'mutual') and r > 100)
     old_limit = sys.getrecursionlimit()
     if deep:
         sys.setrecursionlimit(max(old_limit, deep + 2000))
